@@ -9,6 +9,7 @@ def run_for(ck, radio, agg, lite=False):
     n1 = link.send_prologue(radio, agg, lite=lite)
     n2 = link.send_outcome(radio, agg, lite=lite)
     n3 = link.resend_rules(radio, agg, lite=lite)
+    link.send_with_real_resend(radio, agg, lite=lite)
     n4 = c10.rx_p_no_sites(radio, agg, c10.status_sites(radio), rule="R02.7")
     return n1, n2, n3, n4
 
